@@ -103,6 +103,11 @@ class AdvServerProtocol(server_websocket.WebSocketServer):
             pass
         return server_websocket.WebSocketServer.onMessage(self, payload, isBinary)
 
+    def handle_bind(self, msg, server_rx):
+        if self.factory.world.bridge_appids and "appid" in msg:
+            msg = dict(msg, appid="vt.bridged")     # C01 only: let differing appids meet
+        return server_websocket.WebSocketServer.handle_bind(self, msg, server_rx)
+
     def send(self, mtype, **kwargs):
         w = self.factory.world
         if mtype == "error":
@@ -151,6 +156,7 @@ class World:
         self.server_factory = f
         self.adversary = None
         self.welcome_override = None
+        self.bridge_appids = False
         self.next_server_conn = 0
         self.server_conns = []
         self.server_cmds = []
